@@ -50,3 +50,17 @@ Example c17_nesting_beyond_the_limit_is_an_error :
   is_query_idempotent (str "INSERT INTO t (a) VALUES (" ++ concat (repeat (str "[") 300) ++ str "1" ++ concat (repeat (str "]") 300) ++ str ")") = (false, 1%N)
   /\ is_query_idempotent (str "INSERT INTO t (a) VALUES (" ++ concat (repeat (str "[") 200) ++ str "1" ++ concat (repeat (str "]") 200) ++ str ")") = (true, 0%N).
 Proof. split; vm_compute; reflexivity. Qed.
+
+(** Whatever request a backend chooses to answer with UNPREPARED for a cached statement -- a client's
+    request, one of the proxy's own heartbeats or control queries, or the proxy's own re-PREPARE,
+    nested to any depth -- the Execute the proxy calls once its PREPARE is answered returns. *)
+Theorem c17_execute_of_every_request_kind_returns :
+  forall k, exists e, unprepared_then_prepare_answered false k = Ok e.
+Proof. exact execute_never_panics. Qed.
+Print Assumptions c17_execute_of_every_request_kind_returns.
+
+(** Before fixes 90a69b1 / 864854b the heartbeat and the re-PREPARE cases panicked. *)
+Theorem c17_execute_panicked_before_the_repair :
+  (exists w, execute_req true KInternal = Panic w) /\ (exists w, execute_req true (KPrepare KClient) = Panic w).
+Proof. exact execute_panicked_before_the_repair. Qed.
+Print Assumptions c17_execute_panicked_before_the_repair.
